@@ -1,0 +1,29 @@
+//go:build verif
+
+// Contracts checked by /verif/govc (comment-only file; see /verif/DESIGN.md, property C38).
+// The stream model (consumed) and the library specifications are in /verif/contracts/external/io.go.spec.
+package jsonrpc2
+
+//@ # the JSON codec (encoding/json, reflection) is out of reach: ASSUMED total
+//@ trusted DecodeMessage
+//@   assigns nothing
+//@ trusted EncodeMessage
+//@   assigns nothing
+//@
+//@ func (*headerReader).Read
+//@   requires r != nil && r.in != nil && ctx != nil
+//@   assigns consumed
+//@   ensures [accounting] result1 == consumed[io.Reader(r.in)] - old(consumed)[io.Reader(r.in)]
+//@   ensures [nonneg] result1 >= 0
+//@   at call io.ReadFull#1 assert [body-bounded-by-content-length] 0 < length && length <= 2147483647 && len(data) == length && ret0 <= length
+//@   at call DecodeMessage#1 assert [decodes-exactly-the-declared-body] len(data) == length && length > 0
+//@ loop (*headerReader).Read#1
+//@   invariant total == consumed[io.Reader(r.in)] - old(consumed)[io.Reader(r.in)] && total >= 0
+//@   invariant 0 <= length && length <= 2147483647 && r.in != nil
+//@
+//@ func (*headerWriter).Write
+//@   requires w != nil && w.out != nil && ctx != nil
+//@   assigns written
+//@   ensures [accounting] result0 == written[w.out] - old(written)[w.out]
+//@   ensures [nonneg] result0 >= 0
+//@   at call Write#1 assert [body-follows-header] len(arg0) == len(data)
